@@ -148,7 +148,6 @@ def stScheme (e : Env) (ps : PS) (r : Char) : StepR :=
     if e.ov.isSome && (e.cfg.isSpecial u.scheme && !e.cfg.isSpecial ps.buffer) then retUrl ps
     else if e.ov.isSome && (!e.cfg.isSpecial u.scheme && e.cfg.isSpecial ps.buffer) then retUrl ps
     else if e.ov.isSome && ((u.username != [] || u.password != [] || u.port.isSome) && ps.buffer == lit "file") then retUrl ps
-    else if e.ov.isSome && u.scheme == lit "file" && u.host == none then .done ⟨ps.url, .panic 10⟩   -- `*url.host` on nil
     else if e.ov.isSome && u.scheme == lit "file" && u.host == some [] then retUrl ps
     else
       let ps := { ps with url := { ps.url with scheme := ps.buffer } }
